@@ -26,6 +26,29 @@ def run(ctx):
         src = g.program()
         t = genprog.gen_text(rng, "abc", 10)
         extra.append({"src": src, "texts": [t[:k] for k in range(len(t) + 1)]})
+    # boundary templates: references to captures that may be unbound or empty, transforms applied
+    # to arbitrary (empty, one-byte, non-numeric, huge) match text
+    caps = ["maybe (%s = v) %s v", "((%s = v) or %s) v", "at least 0 (%s = v) %s v v", "maybe ({%s = v} = s) %s v",
+            "(maybe %s) = v %s v", "maybe (%s = v 'q') %s v 'b'", "(%s = v or %s) maybe v"]
+    for i in range(60 if quick else 600):
+        a = rng.choice(["'a'", "'x'", "letter", "any", "digit"])
+        b = rng.choice(["'a'", "'b'", "letter", "any"])
+        src = "find all " + rng.choice(caps) % (a, b)
+        extra.append({"src": src, "texts": ["", "a", "b", "xa", "xax", "aa", "bb", "ab", "ba1", genprog.gen_text(rng, "abx", 6)]})
+    pex = ["tail match", "tail tail match", "head tail match", "tail head match", "head head match", "tail tail tail match",
+           "match + 1", "match - 1", "match * 2", "match / 2", "match % 3", "match + match", "(match + 0) / 7", "0 - match",
+           "match < 'b'", "match == ''", "not (match == 'a')", "(tail match) == ''", "matchLength / 2", "matchLength % 2",
+           "matchNumber - 1", "head match + tail match", "(match * match) * match", "match - 9223372036854775807"]
+    for e in pex:
+        for body in ["any", "at least 1 digit", "between 1 and 3 any", "at least 1 any", "letter maybe '-'"]:
+            boolish = any(op in e for op in ["<", "==", "not "])
+            if boolish:
+                src = "set f to transform if %s then return 'T' end return 'F' end\nreplace all %s with f" % (e, body)
+            else:
+                src = "set f to transform return %s end\nreplace all %s with f" % (e, body)
+            extra.append({"src": src, "texts": ["a", "ab", "7", "12", "-3", "99999999999999999999", "a1", "", "x-", "0"]})
+            if boolish:
+                extra.append({"src": "set p to pattern %s begin return %s end\nfind all p" % (body, e), "texts": ["a", "ab", "7", "", "b1"]})
     extra.append({"src": "set f to transform if match == 'a' then set x to true else set x to 'q' end return x - 1 end\nreplace all any with f",
                   "texts": ["a", "b"]})
     extra.append({"src": "set f to transform return 1 / 0 end\nreplace all 'a' with f", "texts": ["a"]})
